@@ -129,6 +129,141 @@ class _Canon:
                 out.append(ast.copy_location(ast.Assign(targets=st.targets, value=ref), st))
         return out
 
+    def n13(self, body):
+        """N13: `a, b = x, y` with plain names on the left and nothing on the right that the left binds is `a = x; b = y`."""
+        out = []
+        for st in body:
+            if isinstance(st, ast.Assign) and len(st.targets) == 1 and isinstance(st.targets[0], ast.Tuple) and isinstance(st.value, ast.Tuple) and len(st.targets[0].elts) == len(st.value.elts) and all(isinstance(t, ast.Name) for t in st.targets[0].elts) and not any(isinstance(v, ast.Starred) for v in st.value.elts):
+                tn = {t.id for t in st.targets[0].elts}
+                rn = {n.id for v in st.value.elts for n in ast.walk(v) if isinstance(n, ast.Name)}
+                pure = all(isinstance(v, (ast.Name, ast.Attribute, ast.Subscript, ast.Constant)) for v in st.value.elts)
+                if not (tn & rn) and pure and len(tn) == len(st.targets[0].elts):
+                    for t, v in zip(st.targets[0].elts, st.value.elts):
+                        out.append(ast.copy_location(ast.Assign(targets=[t], value=v), st))
+                    continue
+            out.append(st)
+        return out
+
+    def n12(self):
+        """N12: `f(**kw)` where kw is a local bound once to `dict(a=x, b=y)` / `{"a": x}` of plain names that are bound once, and
+        only ever splatted, is `f(a=x, b=y)`; the dictionary itself then disappears."""
+        import copy as _copy
+
+        fn = self.fn
+        cands = {}
+        for n in ast.walk(fn):
+            if isinstance(n, ast.Assign) and len(n.targets) == 1 and isinstance(n.targets[0], ast.Name):
+                v = n.value
+                items = None
+                if isinstance(v, ast.Call) and isinstance(v.func, ast.Name) and v.func.id == "dict" and not v.args and v.keywords and all(k.arg for k in v.keywords):
+                    items = [(k.arg, k.value) for k in v.keywords]
+                elif isinstance(v, ast.Dict) and v.keys and all(isinstance(k, ast.Constant) and isinstance(k.value, str) and k.value.isidentifier() for k in v.keys):
+                    items = [(k.value, x) for k, x in zip(v.keys, v.values)]
+                if items is not None and all(isinstance(x, (ast.Name, ast.Constant)) for _k, x in items):
+                    cands.setdefault(n.targets[0].id, []).append((n, items))
+        for name, defs in cands.items():
+            if len(defs) != 1 or self.count_stores(name) != 1:
+                continue
+            node, items = defs[0]
+            if any(isinstance(x, ast.Name) and self.count_stores(x.id) != 1 for _k, x in items):
+                continue
+            loads = [n for n in ast.walk(fn) if isinstance(n, ast.Name) and n.id == name and isinstance(n.ctx, ast.Load)]
+            splats = [(c, k) for c in ast.walk(fn) if isinstance(c, ast.Call) for k in c.keywords if k.arg is None and isinstance(k.value, ast.Name) and k.value.id == name]
+            if not splats or len(splats) != len(loads):
+                continue
+            for c, k in splats:
+                i = c.keywords.index(k)
+                c.keywords[i:i + 1] = [ast.keyword(arg=a, value=_copy.deepcopy(x)) for a, x in items]
+            # drop the definition
+            for parent in ast.walk(fn):
+                for fld in ("body", "orelse", "finalbody"):
+                    seq = getattr(parent, fld, None)
+                    if isinstance(seq, list) and node in seq:
+                        seq.remove(node)
+
+    def n14(self):
+        """N14: a local bound once to a comparison of things that are themselves bound once (a named mask) stands for that
+        comparison wherever it is read: `m = n < t; where(m, a, b); where(m[:, None], c, d)` is the same computation as with the
+        comparison written out twice."""
+        import copy as _copy
+
+        fn = self.fn
+        for n in list(ast.walk(fn)):
+            if not (isinstance(n, ast.Assign) and len(n.targets) == 1 and isinstance(n.targets[0], ast.Name) and isinstance(n.value, ast.Compare)):
+                continue
+            name = n.targets[0].id
+            if self.count_stores(name) != 1 or name.startswith("_n"):
+                continue
+            operands = [x for x in ast.walk(n.value) if isinstance(x, ast.Name)]
+            params = {a.arg for a in fn.args.posonlyargs + fn.args.args + fn.args.kwonlyargs}
+            if any(self.count_stores(x.id) > 1 or (self.count_stores(x.id) == 1 and x.id not in params and False) for x in operands):
+                continue
+            if any(isinstance(x, (ast.Call, ast.NamedExpr, ast.Await, ast.Yield)) for x in ast.walk(n.value)):
+                continue
+            loads = [x for x in ast.walk(fn) if isinstance(x, ast.Name) and x.id == name and isinstance(x.ctx, ast.Load)]
+            if not loads or len(loads) > 4:
+                continue
+            # the definition must come before every use in one straight block (no use inside a loop that re-binds operands)
+            class _S(ast.NodeTransformer):
+                def visit_Name(self_, x):
+                    if x.id == name and isinstance(x.ctx, ast.Load):
+                        return ast.copy_location(_copy.deepcopy(n.value), x)
+                    return x
+            for parent in ast.walk(fn):
+                for fld in ("body", "orelse", "finalbody"):
+                    seq = getattr(parent, fld, None)
+                    if isinstance(seq, list) and n in seq:
+                        i = seq.index(n)
+                        for j in range(i + 1, len(seq)):
+                            seq[j] = _S().visit(seq[j])
+                        if not any(isinstance(x, ast.Name) and x.id == name and isinstance(x.ctx, ast.Load) for x in ast.walk(fn)):
+                            seq.remove(n)
+                        break
+
+    def n10(self, body):
+        """N10: a loop over a literal sequence of attribute names whose body uses the loop variable only as the name argument of
+        getattr / setattr is the same statements written out, one copy per name (`setattr(o, "a", v)` is `o.a = v`)."""
+        import copy as _copy
+
+        out = []
+        for st in body:
+            names = None
+            if isinstance(st, ast.For) and isinstance(st.target, ast.Name) and not st.orelse and isinstance(st.iter, (ast.Tuple, ast.List)) and st.iter.elts and all(isinstance(x, ast.Constant) and isinstance(x.value, str) and x.value.isidentifier() for x in st.iter.elts) and len(st.iter.elts) <= 12:
+                v = st.target.id
+                ok = all(isinstance(b, (ast.Expr, ast.Assign)) for b in st.body)
+                uses = [n for b in st.body for n in ast.walk(b) if isinstance(n, ast.Name) and n.id == v]
+                attr_uses = [c.args[1] for b in st.body for c in ast.walk(b) if isinstance(c, ast.Call) and isinstance(c.func, ast.Name) and c.func.id in ("getattr", "setattr") and len(c.args) in (2, 3) and isinstance(c.args[1], ast.Name) and c.args[1].id == v]
+                if ok and uses and len(uses) == len(attr_uses) and self.count_loads(v) == len(uses):
+                    names = [x.value for x in st.iter.elts]
+            if names is None:
+                out.append(st)
+                continue
+
+            class _R(ast.NodeTransformer):
+                def __init__(self, nm):
+                    self.nm = nm
+
+                def visit_Call(self, c):
+                    self.generic_visit(c)
+                    if isinstance(c.func, ast.Name) and c.func.id == "getattr" and len(c.args) == 2 and isinstance(c.args[1], ast.Name) and c.args[1].id == v:
+                        return ast.copy_location(ast.Attribute(value=c.args[0], attr=self.nm, ctx=ast.Load()), c)
+                    return c
+            for nm in names:
+                for b in st.body:
+                    nb = _R(nm).visit(_copy.deepcopy(b))
+                    if isinstance(nb, ast.Expr) and isinstance(nb.value, ast.Call) and isinstance(nb.value.func, ast.Name) and nb.value.func.id == "setattr" and len(nb.value.args) == 3 and isinstance(nb.value.args[1], ast.Name) and nb.value.args[1].id == v:
+                        c = nb.value
+                        nb = ast.copy_location(ast.Assign(targets=[ast.Attribute(value=c.args[0], attr=nm, ctx=ast.Store())], value=c.args[2]), b)
+                    if any(isinstance(n, ast.Name) and n.id == v for n in ast.walk(nb)):
+                        nb = None
+                        break
+                    out.append(ast.copy_location(nb, st) if not hasattr(nb, "lineno") else nb)
+                if nb is None:
+                    out = [x for x in out]  # a use that could not be rewritten: keep the loop as it is
+                    out.append(st)
+                    break
+        return out
+
     # ---- helpers over the whole function ------------------------------------------------------------------------
     def count_loads(self, name, exclude=()):
         return sum(1 for n in ast.walk(self.fn) if isinstance(n, ast.Name) and n.id == name and isinstance(n.ctx, ast.Load) and not any(n is x for x in exclude))
@@ -287,6 +422,29 @@ class _Sub(ast.NodeTransformer):
         return n
 
 
+class _CallOfChoice(ast.NodeTransformer):
+    """N9: `(f if c else g)(args)` is `f(args) if c else g(args)` (the test is evaluated first in both, then the arguments)."""
+
+    _BIN = {"add": ast.Add, "subtract": ast.Sub, "multiply": ast.Mult, "divide": ast.Div, "true_divide": ast.Div, "power": ast.Pow, "floor_divide": ast.FloorDiv, "matmul": ast.MatMult}
+    _CMP = {"less": ast.Lt, "less_equal": ast.LtE, "greater": ast.Gt, "greater_equal": ast.GtE, "equal": ast.Eq, "not_equal": ast.NotEq}
+
+    def visit_Call(self, node):
+        self.generic_visit(node)
+        # N11: a binary ufunc called with two positional arguments and nothing else is the operator it implements
+        if isinstance(node.func, ast.Attribute) and isinstance(node.func.value, ast.Name) and node.func.value.id in ("np", "numpy") and len(node.args) == 2 and not node.keywords and not any(isinstance(a, ast.Starred) for a in node.args):
+            if node.func.attr in self._BIN:
+                return ast.copy_location(ast.BinOp(left=node.args[0], op=self._BIN[node.func.attr](), right=node.args[1]), node)
+            if node.func.attr in self._CMP:
+                return ast.copy_location(ast.Compare(left=node.args[0], ops=[self._CMP[node.func.attr]()], comparators=[node.args[1]]), node)
+        if isinstance(node.func, ast.IfExp) and isinstance(node.func.body, (ast.Name, ast.Attribute)) and isinstance(node.func.orelse, (ast.Name, ast.Attribute)):
+            import copy as _copy
+
+            a = ast.copy_location(ast.Call(func=node.func.body, args=node.args, keywords=node.keywords), node)
+            b = ast.copy_location(ast.Call(func=node.func.orelse, args=[_copy.deepcopy(x) for x in node.args], keywords=[_copy.deepcopy(k) for k in node.keywords]), node)
+            return ast.copy_location(ast.IfExp(test=node.func.test, body=a, orelse=b), node)
+        return node
+
+
 def normalise(tree):
     """Canonicalises every function of a parsed module in place and returns the tree."""
     internal = set()
@@ -299,7 +457,24 @@ def normalise(tree):
     for n in ast.walk(tree):
         if isinstance(n, (ast.FunctionDef, ast.AsyncFunctionDef)):
             c = _Canon(n, internal)
+            # N10 first, on the whole function, so that the use counts of the later rewrites see the unrolled statements
+            def _unroll(stmts):
+                for st_ in stmts:
+                    if isinstance(st_, (ast.FunctionDef, ast.AsyncFunctionDef, ast.ClassDef)):
+                        continue
+                    for fld in ("body", "orelse", "finalbody"):
+                        if isinstance(getattr(st_, fld, None), list):
+                            setattr(st_, fld, _unroll(getattr(st_, fld)))
+                    if isinstance(st_, ast.Try):
+                        for h in st_.handlers:
+                            h.body = _unroll(h.body)
+                return c.n13(c.n10(stmts))
+            n.body = _unroll(n.body)
+            n.body = [_CallOfChoice().visit(st) for st in n.body]
+            c.n12()
+            c.n14()
             for _ in range(2):  # the second pass sees the counts of the tree rewritten by the first
                 n.body = c.block(n.body)
+            n.body = [_CallOfChoice().visit(st) for st in n.body]
     ast.fix_missing_locations(tree)
     return tree
